@@ -121,12 +121,9 @@ class JsonObject : public detail::VariantOperators<JsonObject> {
   // https://arduinojson.org/v7/api/jsonobject/subscript/
   template <typename TVariant>
   detail::enable_if_t<detail::IsVariant<TVariant>::value,
-                      detail::MemberProxy<JsonObject, const char*>>
+                      detail::MemberProxy<JsonObject, JsonString>>
   operator[](const TVariant& key) const {
-    if (key.template is<const char*>())
-      return {*this, key.template as<const char*>()};
-    else
-      return {*this, nullptr};
+    return {*this, key.template as<JsonString>()};
   }
 
   // Removes the member at the specified iterator.
@@ -149,8 +146,8 @@ class JsonObject : public detail::VariantOperators<JsonObject> {
   template <typename TVariant>
   detail::enable_if_t<detail::IsVariant<TVariant>::value> remove(
       const TVariant& key) const {
-    if (key.template is<const char*>())
-      remove(key.template as<const char*>());
+    if (key.template is<JsonString>())
+      remove(key.template as<JsonString>());
   }
 
   // Removes the member with the specified key.
@@ -187,7 +184,7 @@ class JsonObject : public detail::VariantOperators<JsonObject> {
   ARDUINOJSON_DEPRECATED("use obj[key].is<T>() instead")
   detail::enable_if_t<detail::IsVariant<TVariant>::value, bool> containsKey(
       const TVariant& key) const {
-    return containsKey(key.template as<const char*>());
+    return containsKey(key.template as<JsonString>());
   }
 
   // DEPRECATED: use obj[key].to<JsonArray>() instead
